@@ -128,6 +128,87 @@ def _gsd_body_paths(nc, ns=1, big=False):
 _BYPASS = {}
 
 
+def gsd_summary(rec, nc=2, ns=2):
+    """The correction loop replaced by its CONTRACT (an arbitrary state satisfying invariant and exit condition) so that the
+    exploration goes on to the NEXT species: the entry state of every species' loop - also of a species that comes after a
+    corrected one - must satisfy the invariant with the direction the code chose (remove iff there is a surplus)."""
+    desc = "GSD correction loops in sequence (loop = contract), cells=%d species=%d" % (nc, ns)
+    rec.structure(desc)
+    X = [z3.Real("x_%d" % i) for i in range(nc * ns)]
+    entries = []
+
+    def hook(I, node, cond, body):
+        if cond or not I.fn_stack or I.fn_stack[-1] != "GenerateStochasticDistribution":
+            return False
+        if I.ctx.local:
+            raise CannotMerge()
+        fr = I.frame
+        names = {I.P.by_id[k].get("name"): b for k, b in fr.items() if k in I.P.by_id}
+        sp = names["s"].get()
+        if is_sym(sp):
+            raise HarnessError("symbolic species loop variable")
+        rm = names["rm_species"].get()
+        if is_sym(rm):
+            rm = I.truth(rm)
+        sto = list(names["mesh_x_sto"].get().elems)
+        tot = names["tot_species"].get().elems[sp]
+        entries.append({"sp": sp, "rm": rm, "sto": sto, "tot": tot, "delta": names["delta"].get(), "pc": list(I.pc), "defs": list(I.defs), "I": I, "k": getattr(I, "_gsd_k", 0)})
+        I._gsd_k = getattr(I, "_gsd_k", 0) + 1
+        # contract of the loop: species sp ends with non-negative integers, empty cells empty, total = the floored total; other species untouched
+        new = list(sto)
+        qs = []
+        for i in range(nc):
+            q = I.fresh("post_q", "int")
+            I.assume(z3.And(q >= 0, z3.Implies(X[i * ns + sp] == 0, q == 0)))
+            new[i * ns + sp] = z3.ToReal(q)
+            qs.append(q)
+        I.assume(z3.ToReal(sum(qs)) == I.toreal(tot))
+        names["mesh_x_sto"].set(Vec(new, "double", name="mesh_x_sto"))
+        return True            # the loop is done: execution continues behind it
+
+    def body(I):
+        for x in X:
+            I.assume(z3.And(x >= 0, x <= 50))
+        I.check_lib_pre = False
+        I.lazy_merge = False
+        I.loop_hook = hook
+        return I.call_fn("GenerateStochasticDistribution", [Vec(list(X), "double", name="mesh_x"), nc, ns, 42])
+
+    n = 0
+    for pr in explore(program(), body, max_paths=300, budget_s=120, unwind=6):
+        if pr.I is not None and not pr.ended:
+            n += 1
+    seen = set()
+    checked = 0
+    for e in entries:
+        key = (e["sp"], e["rm"], len(e["pc"]), e["k"] > 0)
+        if key in seen:
+            continue
+        seen.add(key)
+        I = e["I"]
+        sv = z3.Solver()
+        sv.set("timeout", 30000)
+        sv.add(*e["defs"])
+        sv.add(*e["pc"])
+        sto = [I.toreal(a) for a in e["sto"]]
+        tot = I.toreal(e["tot"])
+        dl = I.tosym(e["delta"])
+        ssum = sum((sto[i * ns + e["sp"]] for i in range(nc)), z3.RealVal(0))
+        inv = z3.And(dl > 0, (ssum - tot == z3.ToReal(dl)) if e["rm"] else (tot - ssum == z3.ToReal(dl)))
+        t0 = time.time()
+        sv.add(z3.Not(inv))
+        res = sv.check()
+        rec.query(str(res), time.time() - t0)
+        checked += 1
+        name = "species %d loop entered with the direction that matches its surplus / deficit (%s chosen; %s)" % (e["sp"], "remove" if e["rm"] else "add", "after an earlier species was corrected" if e["k"] > 0 else "first corrected species")
+        rec.oblig(name, "holds" if res == z3.unsat else ("violated" if res == z3.sat else "inconclusive"), "" if res != z3.unknown else "solver unknown/timeout", time.time() - t0, desc)
+        if res == z3.sat:
+            rec.violation("gsd-direction", "the redistribution corrects a species in the wrong direction (removes although there is a deficit, or adds although there is a surplus) when an earlier species was corrected before it (%s)" % desc,
+                          {"structure": desc, "model": str(sv.model())[:400]}, replayed=replay_gsd_validity()[0])
+    rec.paths += n
+    rec.vacuity_witness(desc, checked > 0 and any(e["k"] > 0 for e in entries), "%d completed paths, %d loop entries (%d after an earlier correction)" % (n, len(entries), sum(1 for e in entries if e["k"] > 0)))
+
+
 def gsd_induction(rec, nc=2, ns=1, big=False):
     desc = "GSD correction loop, one iteration from an arbitrary invariant state, cells=%d species=%d%s" % (nc, ns, " (amounts in [100,1000]: normal branch)" if big else "")
     rec.structure(desc)
@@ -500,6 +581,8 @@ def _work(rec, item):
         gsd_induction(rec, *item[1:])
     elif item[0] == "progress":
         gsd_progress(rec, *item[1:])
+    elif item[0] == "summary":
+        gsd_summary(rec, *item[1:])
     elif item[0] == "stale":
         from .C08 import no_stale_state
         no_stale_state(rec, item[1:])
@@ -518,7 +601,7 @@ def run(rec):
     for fn in ("GenerateStochasticDistribution", "engineexport_initialize_grid/graph (init-state section)", "SpeciesFirstToMeshFirstArray", "MkVec", "RDScript.init_state_processing via LibRDEngine.setup"):
         rec.encoded(fn)
     q = rec.tier == "quick"
-    items = [("induction", 2), ("progress", 2), ("induction", 3), ("progress", 3), ("induction", 2, 2), ("progress", 2, 2), ("induction", 3, 2), ("induction", 2, 1, True)]
+    items = [("induction", 2), ("progress", 2), ("induction", 3), ("progress", 3), ("induction", 2, 2), ("progress", 2, 2), ("induction", 3, 2), ("induction", 2, 1, True), ("summary", 2, 2), ("summary", 2, 3)]
     if not q:
         # bounded unwinding of the whole function (mixed integer/real queries: many stay inconclusive and are listed as such)
         items += [("induction", 4), ("progress", 4), ("gsd", 2, 1, 2, False), ("gsd", 3, 1, 2, False), ("gsd", 2, 1, 2, True)]
